@@ -203,7 +203,7 @@ func InflateGraph(t *rapid.T, m *Model) string {
 		// N copies of the object type as further parent types of its tupleset relation
 		src := *td
 		for i := 0; i < n; i++ {
-			nm := freshT("par", i)
+			nm := freshT("par", (i*7)%41) // not in name order
 			cp := TypeDef{Name: nm}
 			for _, r := range src.Rels {
 				cp.Rels = append(cp.Rels, Relation{Name: r.Name, Rw: r.Rw.Clone(), Restr: append([]Restriction(nil), r.Restr...)})
